@@ -1205,7 +1205,7 @@ impl WorldA {
             _ => {
                 let d = *rng.pick(&[0u64, 1, 2, 3, 10]) * self.cfg.spb.max(1);
                 let t = b.time.plus_seconds(d);
-                self.deadlines_t.push(t.seconds());
+                self.deadlines_t.push(t.nanos());
                 Some(Expiration::AtTime(t))
             }
         }
@@ -1540,7 +1540,7 @@ impl World for WorldA {
 
     fn gen_step(&mut self, rng: &mut Rng) -> Step {
         if !self.token_ok {
-            return Step::Block { dh: 1, dt: self.cfg.spb };
+            return Step::Block { dh: 1, dt: self.cfg.spb, dn: 0 };
         }
         if let Some(s) = self.queue.pop_front() {
             return s;
@@ -1562,12 +1562,9 @@ impl World for WorldA {
                 let jump = match e {
                     Expiration::AtHeight(h) => {
                         let t = (h + off).saturating_sub(1);
-                        if t > b.height { Some(Step::Block { dh: t - b.height, dt: (t - b.height).saturating_mul(self.cfg.spb) }) } else { None }
+                        if t > b.height { Some(Step::Block { dh: t - b.height, dt: (t - b.height).saturating_mul(self.cfg.spb), dn: 0 }) } else { None }
                     }
-                    Expiration::AtTime(ts) => {
-                        let t = (ts.seconds() + off).saturating_sub(1);
-                        if t > b.time.seconds() { Some(Step::Block { dh: 1, dt: t - b.time.seconds() }) } else { None }
-                    }
+                    Expiration::AtTime(ts) => crate::util::jump_around(rng, b.time.nanos(), ts.nanos()).map(|(dt, dn)| Step::Block { dh: 1, dt, dn }),
                     _ => None,
                 };
                 if let Some(j) = jump {
@@ -1637,18 +1634,17 @@ impl World for WorldA {
                     let target = (d + off).saturating_sub(1);
                     if target > b.height {
                         let dh = target - b.height;
-                        return Step::Block { dh, dt: dh.saturating_mul(self.cfg.spb) };
+                        return Step::Block { dh, dt: dh.saturating_mul(self.cfg.spb), dn: 0 };
                     }
                 } else if !self.deadlines_t.is_empty() {
                     let d = *rng.pick(&self.deadlines_t);
-                    let target = (d + off).saturating_sub(1);
-                    if target > b.time.seconds() {
-                        return Step::Block { dh: 1, dt: target - b.time.seconds() };
+                    if let Some((dt, dn)) = crate::util::jump_around(rng, b.time.nanos(), d) {
+                        return Step::Block { dh: 1, dt, dn };
                     }
                 }
             }
             let dh = *rng.pick(&[1u64, 1, 1, 2, 5, 1000]);
-            return Step::Block { dh, dt: dh.saturating_mul(self.cfg.spb) };
+            return Step::Block { dh, dt: dh.saturating_mul(self.cfg.spb), dn: crate::util::subsecond(rng) };
         }
         if r < 17 && self.cfg.migrations {
             let sc = *rng.pick(&["same", "pre014", "pre014", "v014"]);
@@ -1735,8 +1731,8 @@ impl World for WorldA {
                     self.check_state(!r.ok, out);
                 }
             }
-            Step::Block { dh, dt } => {
-                self.chain.advance(*dh, *dt);
+            Step::Block { dh, dt, dn } => {
+                self.chain.advance_ns(*dh, *dt, *dn);
                 self.meter.sim_blocks += dh;
                 self.meter.sim_seconds += dt;
             }
